@@ -860,7 +860,7 @@ func c13Resolvable(c *Ctx) {
 	c.GuardedByAny(rule, fn, "!iptr.isRoot()", []string{`^!storage/mkvs/db/pathbadger\.\(\*dbPtr\)\.isRoot\(.*InsertedNode\.DBInternal\.`}, keys, "a write log entry may refer to a leaf by its database key only if the leaf can be looked up by that key: a root node is stored under its root hash")
 	// and the reader knows every entry kind the writer produces
 	wk := map[string]bool{}
-	for _, b := range fn.Blocks {
+	for _, b := range blocksIP(fn) {
 		for _, in := range b.Instrs {
 			if st, ok := in.(*ssa.Store); ok {
 				if ia, ok := st.Addr.(*ssa.IndexAddr); ok {
